@@ -15,6 +15,9 @@ var checks = map[string]checkFn{}
 
 func register(id string, fn checkFn) { checks[id] = fn }
 
+// workers: checks that run their cases in killable subprocesses register a worker entry point.
+var workerFns = map[string]func(tier string, shard, of, from int){}
+
 func main() {
 	if len(os.Args) < 2 {
 		ids := make([]string, 0, len(checks))
@@ -26,6 +29,14 @@ func main() {
 		os.Exit(2)
 	}
 	id := os.Args[1]
+	if len(os.Args) >= 7 && os.Args[2] == "worker" {
+		var shard, of, from int
+		fmt.Sscan(os.Args[4], &shard)
+		fmt.Sscan(os.Args[5], &of)
+		fmt.Sscan(os.Args[6], &from)
+		workerFns[id](os.Args[3], shard, of, from)
+		return
+	}
 	fn, ok := checks[id]
 	if !ok {
 		fmt.Fprintf(os.Stderr, "unknown check %s\n", id)
